@@ -54,6 +54,23 @@ def tagOf (j : Json) : String × Json :=
     | [] => ("", Json.null))
   | _ => ("", Json.null)
 
+def litIn (j : Json) : Lit :=
+  let (tag, e) := tagOf j
+  if tag == "bool" then .bool (bool! e)
+  else if tag == "int" then .int (bigInt e)
+  else if tag == "str" then .str (cps e)
+  else .none
+
+def kindIn (j : Json) : Kind :=
+  match arr! j with
+  | [t, r, d] => if str! t == "input" then .input (bool! r) (if isNull d then none else some (litIn d)) else .noOutput
+  | [t, x] =>
+    if str! t == "noinput" then .noInput (litIn x)
+    else match arr! x with
+      | [k, deps] => if str! k == "concat" then .prop (.concat ((arr! deps).map cps)) else .prop (.sumInt ((arr! deps).map cps))
+      | _ => .noOutput
+  | _ => .noOutput
+
 partial def tyIn (j : Json) : Ty :=
   match j with
   | .str s =>
@@ -74,9 +91,18 @@ partial def tyIn (j : Json) : Ty :=
     else if tag == "dict" then (match arr! e with
       | [k, t] => .dict (if str! k == "int" then .int else .str) (tyIn t)
       | _ => .none)
-    else if tag == "data" then .data ((arr! e).map fun f => match arr! f with
-      | [n, t] => (cps n, tyIn t) | _ => ([], .none))
+    else if tag == "data" then
+      match e with
+      | .arr _ =>
+        -- short form: plain required fields under their own names
+        .data ((arr! e).map fun f => match arr! f with
+          | [n, t] => (⟨cps n, [cps n], false, .input true none⟩, tyIn t) | _ => (⟨[], [], false, .noOutput⟩, .none)) ⟨none, false⟩
+      | _ =>
+        .data ((arr! (fld e "fields")).map fun f =>
+          (⟨cps (fld f "name"), (arr! (fld f "keys")).map cps, bool! (fld f "ci"), kindIn (fld f "kind")⟩, tyIn (fld f "ty")))
+          ⟨optNat (fld e "maxDepth"), bool! (fld e "dataFirst")⟩
     else if tag == "optional" then .optional (tyIn e)
+    else if tag == "cut" then .cut
     else .none
 
 def keyIn (j : Json) : Key :=
@@ -123,8 +149,9 @@ partial def valIn (t : Ty) (j : Json) : Val :=
   else if tag == "dict" then .dict ((arr! e).map fun kv => match arr! kv with
     | [k, v] => (keyIn k, valIn (elemTy t) v) | _ => (.int 0, .none))
   else if tag == "data" then (match t with
-    | .data fts => .data (List.zipWith (fun ft f => match arr! f with
-        | [n, v] => (cps n, valIn ft.2 v) | _ => ([], .none)) fts (arr! e))
+    | .data fts _ => .data ((arr! e).map fun f => match arr! f with
+        | [n, v] => (cps n, valIn (((fts.find? fun ft => ft.1.name == cps n).map (·.2)).getD .none) v)
+        | _ => ([], .none))
     | _ => .none)
   else .none
 
@@ -209,20 +236,20 @@ def handle (j : Json) : Json :=
   match obj? j "parse_tree" with
   | some tr =>
     -- parse a JSON tree delivered by the harness (what json.loads returned for the real text)
-    let r := parse cfg P .lenient T (treeIn tr)
+    let r := parse cfg P .lenient 0 T (treeIn tr)
     Json.mkObj [("parse", Json.str (resTag r)), ("back", match r with | .ok y => valOut y | _ => Json.null)]
   | none =>
   let x := valIn T (fld j "val")
   let enc := encode cfg P x
   let base : List (String × Json) := [
     ("echo", valOut x),
-    ("inDomain", Json.bool (inDomain cfg T x)),
+    ("inDomain", Json.bool (inDomain cfg 0 T x)),
     ("setOfContainers", Json.bool T.setOfContainers),
     ("hasInf", Json.bool x.hasInf),
     ("enc", Json.str (resTag enc))]
   match enc with
   | .ok tree =>
-    let r := parse cfg P .lenient T tree
+    let r := parse cfg P .lenient 0 T tree
     Json.mkObj (base ++ [
       ("tree", treeOut tree), ("std", Json.bool tree.standard), ("wf", Json.bool tree.wf),
       ("parse", Json.str (resTag r)),
